@@ -3,6 +3,9 @@
 use std::collections::VecDeque;
 use std::sync::Arc;
 
+/// cap on items taken from a library iterator: a runaway iterator becomes a length violation, not an OOM
+const CAP: usize = 200_000;
+
 use tevec::export::ndarray::{Array1, ArrayView1, ArrayViewMut1};
 use tevec::prelude::{
     AggValidBasic, Cast, GetLen, IsNone, MapValidFinal, MapValidVec, Number, QuantileMethod, TIter, Vec1, Vec1View,
@@ -309,9 +312,9 @@ where
 {
     let mut out = Vec::new();
     let mut push = |name: &'static str, r: Result<Vec<u64>, String>| out.push(MapOut { name, vals: r });
-    push("vdiff", catch(|| v.vdiff(n, None).map(f64bits).collect()));
+    push("vdiff", catch(|| v.vdiff(n, None).take(CAP).map(f64bits).collect()));
     push("vdiff_fill", catch(|| v.vdiff(n, Some(1.5)).map(f64bits).collect()));
-    push("vpct_change", catch(|| v.vpct_change(n).map(f64bits).collect()));
+    push("vpct_change", catch(|| v.vpct_change(n).take(CAP).map(f64bits).collect()));
     push("vrank", catch(|| v.vrank::<Vec<f64>, f64>(false, false).into_iter().map(f64bits).collect()));
     push("vrank_pct_rev", catch(|| v.vrank::<Vec<f64>, f64>(true, true).into_iter().map(f64bits).collect()));
     push("vpartition_sorted", catch(|| v.vpartition(k, true, false).map(f64bits).collect()));
